@@ -18,9 +18,9 @@ static double const U_ = double(std::numeric_limits<R>::epsilon()) / 2;
 // results in the subnormal range of a_real carry absolute, not relative precision
 static double const FLOOR_ = sizeof(R) == 8 ? 1e-300 : 4 * double(std::numeric_limits<R>::denorm_min());
 
-enum { L_P3, L_P5, L_P7, L_ALL_NONZERO, L_T_POW2, L_T_REAL, L_T_SMALL, L_T_LARGE, L_INT_DATA, L_REAL_DATA, L_POLY, L_POLY_N0, L_POLY_N1, L_QUERY_OUTSIDE, L_J0_NE_J1, L_NEAR_DEGENERATE };
+enum { L_P3, L_P5, L_P7, L_ALL_NONZERO, L_T_POW2, L_T_REAL, L_T_SMALL, L_T_LARGE, L_INT_DATA, L_REAL_DATA, L_POLY, L_POLY_N0, L_POLY_N1, L_QUERY_OUTSIDE, L_J0_NE_J1, L_NEAR_DEGENERATE, L_RELATED_DATA };
 static char const *const labels[] = {"cubic", "quintic", "septic", "all_boundary_derivatives_nonzero", "duration_power_of_two", "duration_real", "duration_lt_1/16", "duration_gt_16",
-                                     "integer_boundary_data", "real_boundary_data", "poly_eval_evar_swap", "poly_n_0", "poly_n_1", "query_outside_0_T", "j0_ne_j1", "boundary_data_of_a_lower_degree_motion_perturbed", nullptr};
+                                     "integer_boundary_data", "real_boundary_data", "poly_eval_evar_swap", "poly_n_0", "poly_n_1", "query_outside_0_T", "j0_ne_j1", "boundary_data_of_a_lower_degree_motion_perturbed", "end_data_equal_negated_or_mirrored_start_data", nullptr};
 static char const *const metrics[] = {"max_end_value_error_over_u_scale", "max_coefficient_error_over_u_scale", "max_horner_error_over_bound", nullptr};
 static uint8_t const dict[] = {3, 5, 7, 10, 20};
 static vp_info const info = {"C15", "poly", "", labels, metrics, 128, dict, sizeof(dict)};
@@ -139,6 +139,19 @@ static void case_traj(Tape &t, Ctx &cx, unsigned m)
         d1[k] = gen_val(t, ints, allnz);
         if (!allnz && t.u8() % 3 == 0) { d0[k] = 0; }
         if (!allnz && t.u8() % 3 == 0) { d1[k] = 0; }
+    }
+    if (!neardeg && (ab / 16) % 4 == 0)
+    {
+        // related boundary data: every end datum is plus or minus the start datum, by pattern - equal, negated, time-mirrored
+        // (an out-and-back stroke: d1[k] = (-1)^k d0[k]), anti-mirrored - sometimes on the position only
+        uint8_t pat = t.u8() % 4;
+        for (unsigned k = 0; k < m; ++k)
+        {
+            R sgn = pat == 0 ? R(1) : pat == 1 ? R(-1) : ((k & 1) == (pat == 2 ? 1u : 0u) ? R(-1) : R(1));
+            d1[k] = sgn * d0[k];
+        }
+        if (t.coin()) { d1[0] = d0[0]; }
+        cx.label(L_RELATED_DATA);
     }
     if (neardeg)
     {
